@@ -1,18 +1,25 @@
 (* The "mapping_meaning" link: the executable model of ngo/cleanup.py (Model/Cleanup.v) tied to the HT semantics
    (Sem/Sat.v) through the ground bridge (Link/Ground.v) and the cleanup meta-theorem (Meta/Cleanup.v).
 
-   Main results (all inside [Section CleanupSem], for an arbitrary order [sym_lt] on symbols):
-     1. create_mappings_meaning          every mapping of _compute_local_superseed holds in every ground instance
-                                         of its own rule (plain atom head)
-     2. find_superseeded_direct_meaning  every mapping of the intersection part of _find_superseeded satisfies
-                                         mapping_holds, for every instance over the input predicates
-     3. transitive_closure_meaning       the closure preserves mapping_ok (step-indexed [imp])
+   Main results (inside [Section CleanupSem], for an arbitrary order [sym_lt] on symbols):
+     1. create_mappings_meaning(_frag)   every mapping of _compute_local_superseed p rule has head predicate p, is well
+                                         formed and holds in every ground instance of its own rule
+     2. find_superseeded_direct_meaning  every mapping of the intersection part of _find_superseeded ([direct_superseeds],
+                                         the set handed to transitive_closure) satisfies [mapping_holds] (= impn 0),
+                                         for every instance over the input predicates
+     3. transitive_closure_meaning       the closure preserves [mapping_ok] (step-indexed [imp])
         find_superseeded_meaning         = 2 + 3 for the value returned by _find_superseeded inputs [] prg
      4. superseeded_meaning              _superseeded ss lhs rhs = Ok true: the ground literal of rhs is a copy of /
                                          the double negation of / implied by the ground atom of lhs
-     5. execute_core_sound               execute_core inputs prg = Ok prg' -> stable prg I T <-> stable prg' I T
+        remove_superseed_body_ok         a whole run of _remove_superseed_from_list on a body: every deleted ground
+                                         literal stays justified by a KEPT positive atom (chains of removals)
+        cleanup_nonground_del_nn         Ground.cleanup_nonground_del extended to deleted double negations
+     5. execute_core_sound               frag_prog prg = true -> execute_core inputs prg = Ok prg' ->
+                                         forall I, facts_over (in_inputs inputs) I -> forall T, stable prg I T <-> stable prg' I T
 
-   Fragment of 5 ([frag_prog]): see the definition; side conditions are decidable (boolean) predicates.
+   Fragment of 5 ([frag_prog], boolean): heads = plain atom / constant / safe bound-free choice over condition-free
+   atoms whose elements of one predicate have equal arguments; bodies = plain literals (symbolic atoms of any sign,
+   comparisons), no conditional literal, no aggregate, no #true/#false, no argument "_".
    Axiom used: Classical_Prop.classic (through Link/Ground.v and Meta/Cleanup.v only). *)
 From Coq Require Import List String ZArith Bool Arith Lia.
 From NGO Require Import Syntax.Ast Sem.Sym Sem.Sat Model.Traverse Model.Cleanup.
@@ -270,6 +277,51 @@ Lemma local_superseed_const p ln sg b body loc :
   _compute_local_superseed p (SRule ln (HLit (Lit sg (ABool b))) body) = Ok loc -> loc = [].
 Proof. unfold _compute_local_superseed. simpl. intros E. inversion E. reflexivity. Qed.
 
+(* choice head  { e1; ...; en }  whose elements carry no condition: the local superseed is the UNION over the
+   elements of predicate p of the mappings from that element to the top level body literals *)
+Lemma head_element_fold p : forall (es: list condlit) acc, (forall e, In e es -> snd e = []) ->
+  snd (fold_left (head_element_step p) es acc) = snd acc /\
+  forall sy, In sy (fst (fold_left (head_element_step p) es acc)) ->
+     In sy (fst acc) \/ exists e, In e es /\ pred_symbol (fst e) = Some sy /\ p = symbol_pred sy.
+Proof.
+  induction es as [|e es IH]; intros acc NC; simpl; [split; [reflexivity | auto]|].
+  destruct (IH (head_element_step p acc e) (fun e' H => NC e' (or_intror H))) as [A B].
+  assert (S: snd (head_element_step p acc e) = snd acc /\
+             forall sy, In sy (fst (head_element_step p acc e)) ->
+               In sy (fst acc) \/ (pred_symbol (fst e) = Some sy /\ p = symbol_pred sy)).
+  { unfold head_element_step. destruct (pred_symbol (fst e)) as [sy0|] eqn:Es; [|auto].
+    destruct (pred_eqb p (symbol_pred sy0)) eqn:Ep; [|auto]. apply pred_eqb_eq in Ep. cbn [fst snd].
+    rewrite (NC e (or_introl eq_refl)). split; [reflexivity|].
+    intros sy Hsy. apply in_app_or in Hsy. destruct Hsy as [Hsy|[<-|[]]]; auto. }
+  destruct S as [S1 S2]. split; [congruence|].
+  intros sy Hsy. destruct (B sy Hsy) as [H1|[e' [He' X]]].
+  - destruct (S2 sy H1) as [H2|[H2 H3]]; [left; exact H2|]. right. exists e. split; [left; reflexivity|auto].
+  - right. exists e'. split; [right; exact He' | exact X].
+Qed.
+
+Lemma syms_fold_In bl m : forall (syms: list symbol) init,
+  In m (fold_left (fun ls sy => mupdate ls (_create_mappings sy bl)) syms init) ->
+  In m init \/ exists sy, In sy syms /\ In m (_create_mappings sy bl).
+Proof.
+  induction syms as [|sy syms IH]; intros init H; simpl in H; [left; exact H|].
+  destruct (IH _ H) as [H1|[sy' [Hs Hm]]].
+  - destruct (mupdate_In _ _ _ H1) as [H2|H2]; [left; exact H2|]. right. exists sy. split; [left; reflexivity | exact H2].
+  - right. exists sy'. split; [right; exact Hs | exact Hm].
+Qed.
+
+Lemma local_superseed_choice p ln lg es rg body loc m :
+  (forall e, In e es -> snd e = []) ->
+  _compute_local_superseed p (SRule ln (HAgg lg es rg) body) = Ok loc -> In m loc ->
+  exists e sy, In e es /\ pred_symbol (fst e) = Some sy /\ p = symbol_pred sy /\
+               In m (_create_mappings sy (_collect_top_level_body_symbols body)).
+Proof.
+  intros NC E Hm. unfold _compute_local_superseed in E. inversion E; subst loc. clear E.
+  destruct (head_element_fold p es ([], []) NC) as [A B].
+  destruct (syms_fold_In _ _ _ _ Hm) as [H1|[sy [Hs Hc]]].
+  - rewrite A in H1. destruct H1.
+  - destruct (B sy Hs) as [[]|[e [He [Ep Es]]]]. exists e, sy. auto.
+Qed.
+
 (* ================================================================================================ *)
 (** * 4. Meaning of one mapping *)
 Section CleanupSem.
@@ -520,44 +572,137 @@ Qed.
 
 
 (* ---- the fragment of the heads ---- *)
-(* plain atom head  n(args)  or constant head (constraints  :- body.  are  #false :- body.) *)
-Definition plain_head (h: head) : bool :=
+(* the elements of a choice head that share a predicate have the same arguments (in particular: pairwise
+   distinct predicates).  Without it the model unites the mappings of different elements of one predicate
+   (the known "union of element mappings" defect):  {p(X); p(Y)} :- q(X), r(Y).  yields p->q and p->r. *)
+Definition choice_elems_distinct (es: list condlit) : bool :=
+  forallb (fun e1 => forallb (fun e2 =>
+    match pred_symbol (fst e1), pred_symbol (fst e2) with
+    | Some s1, Some s2 => negb (pred_eqb (symbol_pred s1) (symbol_pred s2)) || list_eqb term_eqb (snd s1) (snd s2)
+    | _, _ => true
+    end) es) es.
+(* plain atom head  n(args),  constant head (constraints  :- body.  are  #false :- body.),  or a bound-free
+   choice over condition-free positive atoms of pairwise distinct predicates *)
+Definition frag_head (h: head) : bool :=
   match h with
   | HLit (Lit NoSign (ASym (TFun _ _ _))) => true
   | HLit (Lit _ (ABool _)) => true
+  | HAgg None es None => forallb simple_choice_elem es && choice_elems_distinct es
   | _ => false
   end.
-Definition plain_stmt (st: stmt) : bool := match st with SRule _ h _ => plain_head h | _ => true end.
-Definition plain_prog (P: program) : bool := forallb plain_stmt P.
+Definition head_stmt_ok (st: stmt) : bool := match st with SRule _ h _ => frag_head h | _ => true end.
+Definition heads_ok (P: program) : bool := forallb head_stmt_ok P.
 (* the instances range over the declared input predicates *)
 Definition in_inputs (inputs: list pred) (p: string * nat) : Prop := pmem p inputs = true.
 
-Lemma plain_head_cases h : plain_head h = true ->
-  (exists n hargs e, h = HLit (Lit NoSign (ASym (TFun n hargs e)))) \/ (exists sg c, h = HLit (Lit sg (ABool c))).
+(* the head can derive atoms  n(hargs sigma) *)
+Definition head_has (h: head) (n: string) (hargs: list term) : Prop :=
+  match h with
+  | HLit (Lit NoSign (ASym (TFun n' args _))) => n' = n /\ args = hargs
+  | HAgg None es None => exists e, In (Lit NoSign (ASym (TFun n hargs e)), []) es
+  | _ => False
+  end.
+
+Lemma frag_head_cases h : frag_head h = true ->
+  (exists n hargs e, h = HLit (Lit NoSign (ASym (TFun n hargs e)))) \/ (exists sg c, h = HLit (Lit sg (ABool c))) \/
+  (exists es, h = HAgg None es None /\ forallb simple_choice_elem es = true /\ choice_elems_distinct es = true).
 Proof.
   destruct h as [[sg a]|es|lg es rg|lg f es rg|tx]; try discriminate.
-  destruct a as [t|t gs|c| | |]; try (destruct sg; discriminate).
-  - destruct sg; try discriminate. destruct t; try discriminate. intros _. left. eauto.
-  - intros _. right. eauto.
+  - destruct a as [t|t gs|c| | |]; try (destruct sg; discriminate).
+    + destruct sg; try discriminate. destruct t; try discriminate. intros _. left. eauto.
+    + intros _. right. left. eauto.
+  - destruct lg; try discriminate. destruct rg; try discriminate. simpl. rewrite andb_true_iff. intros [A B].
+    right. right. eauto.
 Qed.
 
-Lemma plain_prog_stmt P st : plain_prog P = true -> In st P -> plain_stmt st = true.
-Proof. unfold plain_prog. rewrite forallb_forall. auto. Qed.
+Lemma heads_ok_stmt P st : heads_ok P = true -> In st P -> head_stmt_ok st = true.
+Proof. unfold heads_ok. rewrite forallb_forall. auto. Qed.
 
-Lemma local_superseed_shape p rule loc m : plain_stmt rule = true ->
-  _compute_local_superseed p rule = Ok loc -> In m loc ->
-  exists ln n hargs e body, rule = SRule ln (HLit (Lit NoSign (ASym (TFun n hargs e)))) body.
+Lemma simple_elems_nocond es : forallb simple_choice_elem es = true -> forall e, In e es -> snd e = [].
 Proof.
-  intros Pl E Hm. destruct rule as [ln h b| | | |]; try discriminate.
-  destruct (plain_head_cases h Pl) as [[n [hargs [e ->]]]|[sg [c ->]]]; [eauto 6|].
-  rewrite (local_superseed_const _ _ _ _ _ _ E) in Hm. destruct Hm.
+  rewrite forallb_forall. intros H e He. destruct (simple_choice_elem_inv e (H e He)) as [n [args [x ->]]]. reflexivity.
+Qed.
+
+Lemma local_superseed_frag p ln h body loc m : frag_head h = true ->
+  _compute_local_superseed p (SRule ln h body) = Ok loc -> In m loc ->
+  exists n hargs, head_has h n hargs /\ p = (n, List.length hargs) /\
+  exists sg qn qargs qe vm, In (BLit (Lit sg (ASym (TFun qn qargs qe)))) body /\ picks hargs qargs vm /\
+     m = mkMapping p (sg, (qn, List.length qargs)) vm.
+Proof.
+  intros Fh E Hm. destruct (frag_head_cases h Fh) as [[n [hargs [e ->]]]|[[sg [c ->]]|[es [-> [Si _]]]]].
+  - destruct (local_superseed_plain _ _ _ _ _ _ _ _ E Hm) as [Ep X]. exists n, hargs. simpl. auto.
+  - rewrite (local_superseed_const _ _ _ _ _ _ E) in Hm. destruct Hm.
+  - destruct (local_superseed_choice _ _ _ _ _ _ _ _ (simple_elems_nocond es Si) E Hm) as [e [sy [He [Es [Ep Hc]]]]].
+    rewrite forallb_forall in Si. destruct (simple_choice_elem_inv e (Si e He)) as [n [args [x ->]]].
+    simpl in Es. inversion Es; subst sy. exists n, args. split; [simpl; eauto|]. split; [exact Ep|].
+    destruct (create_mappings_In _ _ _ Hc) as [sg [qn [qargs [qe [vm [Hl [Pk ->]]]]]]].
+    exists sg, qn, qargs, qe, vm. split; [apply collect_body_In; exact Hl|]. split; [exact Pk|].
+    rewrite Ep. reflexivity.
+Qed.
+
+Lemma head_has_unique h n a1 a2 : frag_head h = true -> head_has h n a1 -> head_has h n a2 ->
+  List.length a1 = List.length a2 -> a1 = a2.
+Proof.
+  intros Fh H1 H2 L. destruct (frag_head_cases h Fh) as [[n0 [hargs [e ->]]]|[[sg [c ->]]|[es [-> [_ Di]]]]].
+  - simpl in H1, H2. destruct H1 as [_ <-], H2 as [_ <-]. reflexivity.
+  - destruct sg; destruct H1.
+  - simpl in H1, H2. destruct H1 as [e1 H1], H2 as [e2 H2].
+    unfold choice_elems_distinct in Di. rewrite forallb_forall in Di. specialize (Di _ H1).
+    rewrite forallb_forall in Di. specialize (Di _ H2). cbn [fst pred_symbol] in Di.
+    unfold symbol_pred in Di. cbn [fst snd] in Di. rewrite L in Di.
+    replace (pred_eqb (n, List.length a2) (n, List.length a2)) with true in Di by (symmetry; apply pred_eqb_eq; reflexivity).
+    simpl in Di. apply list_eqb_term_eq. exact Di.
+Qed.
+
+Lemma head_has_derivable ln h b n hargs : head_has h n hargs ->
+  In (NoSign, (n, List.length hargs)) (headderivable (SRule ln h b)).
+Proof.
+  destruct h as [[sg a]|es|lg es rg|lg f es rg|tx]; simpl; try contradiction.
+  - destruct sg; try contradiction. destruct a as [t| | | | |]; try contradiction. destruct t; try contradiction.
+    intros [<- <-]. simpl. left. reflexivity.
+  - destruct lg; try contradiction. destruct rg; try contradiction. intros [e He].
+    apply in_flat_map. exists (Lit NoSign (ASym (TFun n hargs e)), []). split; [exact He|]. simpl. left. reflexivity.
+Qed.
+
+Lemma ground_head_frag s h gh a : frag_head h = true -> In gh (ground_heads s h) -> ghead_atom gh a ->
+  exists n hargs vs, head_has h n hargs /\ eval_list s hargs = Some vs /\ a = (n, vs).
+Proof.
+  intros Fh Hh HA. destruct (frag_head_cases h Fh) as [[n [hargs [e ->]]]|[[sg [c ->]]|[es [-> [Si _]]]]].
+  - cbn [ground_heads] in Hh. destruct Hh as [Hh|[]]. rewrite gatom_of_fun in Hh.
+    destruct (eval_list s hargs) as [vs|] eqn:Ev; rewrite <- Hh in HA; simpl in HA; [|contradiction].
+    exists n, hargs, vs. simpl. auto.
+  - exfalso.
+    assert (Eh: ground_heads s (HLit (Lit sg (ABool c))) = if bool_lit_true sg c then [] else [Meta.Cleanup.HFalse gatom])
+      by (destruct sg; reflexivity).
+    rewrite Eh in Hh. destruct (bool_lit_true sg c); [destruct Hh|]. destruct Hh as [Hh|[]]. rewrite <- Hh in HA. exact HA.
+  - cbn [ground_heads] in Hh. apply in_flat_map in Hh. destruct Hh as [e [He Hgh]].
+    rewrite forallb_forall in Si. destruct (simple_choice_elem_inv e (Si e He)) as [n [args [x ->]]].
+    simpl in Hgh. destruct (eval_list s args) as [vs|] eqn:Ev; [|destruct Hgh]. destruct Hgh as [<-|[]].
+    simpl in HA. exists n, args, vs. split; [simpl; eauto|]. auto.
+Qed.
+
+(* Step 1 for every head of the fragment *)
+Theorem create_mappings_meaning_frag p ln h body loc m : frag_head h = true ->
+  _compute_local_superseed p (SRule ln h body) = Ok loc -> In m loc ->
+  head_pred m = p /\ mapping_wf m /\ mapping_holds_in (ground_rule (SRule ln h body)) m.
+Proof.
+  intros Fh E Hm.
+  destruct (local_superseed_frag _ _ _ _ _ _ Fh E Hm) as [n [hargs [HH [Ep [sg [qn [qargs [qe [vm [Hl [Pk ->]]]]]]]]]]].
+  split; [reflexivity|]. split; [unfold mapping_wf; simpl; apply (picks_length _ _ _ Pk)|].
+  intros r vs [s [fs [Eb [Hh Ebd]]]] HA L. subst p. cbn [head_pred fst snd] in HA, L.
+  destruct (ground_head_frag s h _ _ Fh Hh HA) as [n' [hargs' [vs' [HH' [Ev Ea]]]]]. inversion Ea; subst n' vs'.
+  assert (hargs' = hargs) as ->.
+  { apply (head_has_unique h n _ _ Fh HH' HH). rewrite <- L. symmetry. apply (eval_list_length _ _ _ Ev). }
+  destruct (ground_body_in sym_lt s body fs _ Eb Hl) as [g [Eg Hg]].
+  rewrite ground_lit_fun, (picks_eval s hargs vs Ev qargs vm Pk) in Eg. inversion Eg; subst g.
+  rewrite Ebd. exact Hg.
 Qed.
 
 (* Step 2.  Every mapping of the intersection part of _find_superseeded (the set handed to transitive_closure)
    holds in the ground program, for every instance over the input predicates: the instance contributes fact
    rules only for input predicates, which get no mappings; a predicate without any rule gets no mappings. *)
 Theorem find_superseeded_direct_meaning inputs prg I U :
-  plain_prog prg = true -> facts_over (in_inputs inputs) I ->
+  heads_ok prg = true -> facts_over (in_inputs inputs) I ->
   direct_superseeds inputs [] prg = Ok U ->
   Forall (mapping_holds prg I) U.
 Proof.
@@ -569,35 +714,28 @@ Proof.
     (* the shape of m, from the first rule of p *)
     destruct ids as [|i0 ids0]; [congruence|].
     destruct (All i0 (or_introl eq_refl)) as [rule0 [loc0 [N0 [E0 H0]]]].
-    pose proof (plain_prog_stmt _ _ Pl (nth_error_In _ _ N0)) as Pl0.
-    destruct (local_superseed_shape _ _ _ _ Pl0 E0 H0) as [ln0 [n0 [hargs0 [e0 [body0 ->]]]]].
-    destruct (create_mappings_meaning _ _ _ _ _ _ _ _ E0 H0) as [_ [Hp [W _]]].
+    pose proof (heads_ok_stmt _ _ Pl (nth_error_In _ _ N0)) as Pl0.
+    destruct rule0 as [ln0 h0 b0| | | |]; try discriminate.
+    destruct (create_mappings_meaning_frag _ _ _ _ _ _ Pl0 E0 H0) as [Hp [W _]].
     split; [exact W|]. unfold mapping_holds_in. rewrite Hp.
     intros r vs [[st [Hin GR]]|[a [Hin ->]]] HA L.
     + (* a ground instance of a statement: that statement is listed under p *)
       destruct st as [ln h b| | | |]; try (simpl in GR; contradiction).
-      pose proof (plain_prog_stmt _ _ Pl Hin) as Plst.
-      destruct (plain_head_cases h Plst) as [[n [hargs [e ->]]]|[sg [c ->]]].
-      * pose proof GR as [s0 [fs [Eb [Hh Ebd]]]]. cbn [ground_heads] in Hh. destruct Hh as [Hh|[]].
-        rewrite gatom_of_fun in Hh. destruct (eval_list s0 hargs) as [vs0|] eqn:Ev; rewrite <- Hh in HA; simpl in HA; [|contradiction].
-        inversion HA as [[Hn Hvs]]. subst vs0.
-        assert (Ep: p = (n, List.length hargs)).
-        { destruct p as [pn pa]. simpl in *. subst pn. f_equal. rewrite <- L. apply (eval_list_length _ _ _ Ev). }
-        destruct (In_nth_error _ _ Hin) as [j Nj].
-        assert (Hj: In j (i0 :: ids0)).
-        { apply (Compl j _ (NoSign, (n, List.length hargs)) Nj); [|symmetry; exact Ep]. simpl. left. reflexivity. }
-        destruct (All j Hj) as [rule [loc [N [El Hl]]]]. rewrite Nj in N. inversion N; subst rule.
-        destruct (create_mappings_meaning _ _ _ _ _ _ _ _ El Hl) as [_ [_ [_ Holds]]].
-        apply (Holds r vs GR); [rewrite Hp; rewrite <- Hh; simpl; exact HA | rewrite Hp; exact L].
-      * exfalso. destruct GR as [s0 [fs [_ [Hh _]]]].
-        assert (Eh: ground_heads s0 (HLit (Lit sg (ABool c))) = if bool_lit_true sg c then [] else [Meta.Cleanup.HFalse gatom])
-          by (destruct sg; reflexivity).
-        rewrite Eh in Hh. destruct (bool_lit_true sg c); [destruct Hh|]. destruct Hh as [Hh|[]]. rewrite <- Hh in HA. exact HA.
+      pose proof (heads_ok_stmt _ _ Pl Hin) as Plst. simpl in Plst.
+      pose proof GR as [s0 [fs [Eb [Hh Ebd]]]].
+      destruct (ground_head_frag s0 h _ _ Plst Hh HA) as [n [hargs [vs0 [HH [Ev Ea]]]]]. inversion Ea; subst vs0.
+      assert (Ep: p = (n, List.length hargs)).
+      { destruct p as [pn pa]. simpl in *. subst pn. f_equal. rewrite <- L. apply (eval_list_length _ _ _ Ev). }
+      destruct (In_nth_error _ _ Hin) as [j Nj].
+      assert (Hj: In j (i0 :: ids0)).
+      { apply (Compl j _ (NoSign, (n, List.length hargs)) Nj); [|symmetry; exact Ep]. apply head_has_derivable. exact HH. }
+      destruct (All j Hj) as [rule [loc [N [El Hl]]]]. rewrite Nj in N. inversion N; subst rule.
+      destruct (create_mappings_meaning_frag _ _ _ _ _ _ Plst El Hl) as [_ [_ Holds]].
+      apply (Holds r vs GR); rewrite Hp; assumption.
     + (* a fact of the instance: its predicate is an input predicate, p is not *)
       exfalso. simpl in HA. subst a. specialize (FO _ Hin). unfold in_inputs in FO. cbn [fst snd] in FO.
       rewrite L in FO. destruct p as [pn pa]. cbn [fst snd] in FO. congruence.
 Qed.
-
 
 (* ================================================================================================ *)
 (** * 6. transitive_closure *)
@@ -701,7 +839,7 @@ End ClosureInv.
 
 (* Steps 2 + 3: the value of self.superseeds after _find_superseeded of a fresh translator *)
 Theorem find_superseeded_meaning inputs prg I sups :
-  plain_prog prg = true -> facts_over (in_inputs inputs) I ->
+  heads_ok prg = true -> facts_over (in_inputs inputs) I ->
   _find_superseeded inputs [] prg = Ok sups -> Forall (mapping_ok prg I) sups.
 Proof.
   intros Pl FO E. rewrite find_superseeded_eq in E. apply rbind_ok in E. destruct E as [U [EU E]].
@@ -788,6 +926,7 @@ Theorem superseeded_meaning P I ss lhs rhs :
   Forall (mapping_ok P I) ss -> no_anon rhs = true -> _superseeded ss lhs rhs = Ok true ->
   exists ln largs le sg rn rargs re,
     lhs = Lit NoSign (ASym (TFun ln largs le)) /\ rhs = Lit sg (ASym (TFun rn rargs re)) /\
+    (forall t, In t rargs -> In t largs) /\
     forall s vs, eval_list s largs = Some vs ->
       exists ws, eval_list s rargs = Some ws /\
         (((rn, ws) = (ln, vs) /\ sg <> Neg /\ same_pred lhs rhs = true) \/
@@ -795,7 +934,7 @@ Theorem superseeded_meaning P I ss lhs rhs :
 Proof.
   intros Hss NA E. destruct (same_pred lhs rhs) eqn:SP.
   - destruct (superseeded_same_pred_inv ss lhs rhs SP (no_anon_guarded lhs rhs NA) E) as [n [args [e [e' [sg [El [Er NN]]]]]]].
-    exists n, args, e, sg, n, args, e'. split; [exact El|]. split; [exact Er|].
+    exists n, args, e, sg, n, args, e'. split; [exact El|]. split; [exact Er|]. split; [auto|].
     intros s vs Ev. exists vs. split; [exact Ev|]. left. auto.
   - rewrite superseeded_unfold in E. unfold same_pred in SP.
     destruct (pred_symbol lhs) as [[ln largs]|] eqn:EL; [|discriminate].
@@ -810,7 +949,9 @@ Proof.
     unfold symbol_pred in Hh, Hb. cbn [fst snd] in Hh, Hb.
     assert (Pk: picks largs rargs (var_map m)).
     { apply picks_of_nth; [unfold mapping_wf in W; rewrite W, Hb; reflexivity | exact Nth]. }
-    exists ln, largs, le, sg, rn, rargs, re. split; [reflexivity|]. split; [reflexivity|].
+    exists ln, largs, le, sg, rn, rargs, re. split; [reflexivity|]. split; [reflexivity|]. split.
+    { clear -Pk. induction Pk as [|t i qa vm N _ IH]; intros t0 H0; [destruct H0|].
+      destruct H0 as [<-|H0]; [exact (nth_error_In _ _ N) | exact (IH t0 H0)]. }
     intros s vs Ev. exists (select (var_map m) vs). split; [exact (picks_eval s largs vs Ev rargs _ Pk)|].
     right. assert (L: List.length vs = snd (head_pred m)) by (rewrite Hh; apply (eval_list_length _ _ _ Ev)).
     specialize (Imp vs L). unfold mapping_lit in Imp. rewrite Hh, Hb, Hs in Imp. exact Imp.
@@ -825,7 +966,7 @@ Corollary superseeded_ground P I ss lhs rhs s gl :
      \/ gimp (ground_prog P I) a g).
 Proof.
   intros Hss NA E Eg.
-  destruct (superseeded_meaning P I ss lhs rhs Hss NA E) as [ln [largs [le [sg [rn [rargs [re [-> [-> H]]]]]]]]].
+  destruct (superseeded_meaning P I ss lhs rhs Hss NA E) as [ln [largs [le [sg [rn [rargs [re [-> [-> [_ H]]]]]]]]]].
   rewrite ground_lit_fun in Eg. destruct (eval_list s largs) as [vs|] eqn:Ev; [|discriminate].
   inversion Eg; subst gl. destruct (H s vs Ev) as [ws [Ew D]].
   exists (ln, vs), (sign_form sg (rn, ws)). split; [reflexivity|]. split; [rewrite ground_lit_fun, Ew; reflexivity|].
@@ -838,8 +979,13 @@ Qed.
 (** * 8. _remove_superseed_from_list on a body of plain literals *)
 
 (* ---- justification of deleted ground literals; closed under chains of removals ---- *)
+(* A deleted ground literal f is justified by the shortened ground body fs' when it is still there, or a KEPT
+   positive atom p implies it (Meta.Cleanup.imp), or it is the double negation  not not q  of the kept atom
+   itself or of a positive atom q that the kept atom implies (the same-predicate branch of _superseeded
+   removes  not not q(t)  next to  q(t);  q(t) itself may be removed later). *)
 Definition just (GP: grule -> Prop) (fs fs': list gF) : Prop :=
-  forall f, In f fs -> In f fs' \/ exists p, In (GPos p) fs' /\ gimp GP p f.
+  forall f, In f fs -> In f fs' \/
+    exists p, In (GPos p) fs' /\ (gimp GP p f \/ exists q, f = GNN q /\ (q = p \/ gimp GP p (GPos q))).
 
 Lemma just_refl GP fs : just GP fs fs.
 Proof. intros f Hf. left. exact Hf. Qed.
@@ -848,12 +994,15 @@ Proof. intros f Hf. left. exact Hf. Qed.
 Lemma just_trans GP fs fs' fs'' : just GP fs fs' -> just GP fs' fs'' -> just GP fs fs''.
 Proof.
   intros J1 J2 f Hf. destruct (J1 f Hf) as [H1|[p [Hp Ip]]]; [exact (J2 f H1)|].
-  destruct (J2 _ Hp) as [H2|[p' [Hp' Ip']]].
+  destruct (J2 _ Hp) as [H2|[p' [Hp' [Ip'|[q [Eq _]]]]]]; [right; exists p; auto| |discriminate Eq].
+  right. exists p'. split; [exact Hp'|].
+  destruct Ip as [Ip|[q [Ef [->|Iq]]]].
+  - left. exact (imp_trans _ _ _ _ _ _ _ Ip' Ip).
   - right. exists p. auto.
-  - right. exists p'. split; [exact Hp'|]. exact (imp_trans _ _ _ _ _ _ _ Ip' Ip).
+  - right. exists q. split; [exact Ef|]. right. exact (imp_trans _ _ _ _ _ _ _ Ip' Iq).
 Qed.
 
-(* exactly the body part of Ground.del_ok *)
+(* the body part of Ground.del_ok, with the more general justification *)
 Definition body_ok (GP: grule -> Prop) (b b': list bodyelem) : Prop :=
   del_body b b' /\
   forall s fs', ground_body s b' = Some fs' -> exists fs, ground_body s b = Some fs /\ just GP fs fs'.
@@ -970,18 +1119,10 @@ Proof.
 Qed.
 
 (* ---- the invariant of the bodies of the fragment ---- *)
-(* lhs positive, rhs doubly negated, same predicate: the one removal that Cleanup.shortened cannot justify *)
-Definition nn_clash (x y: bodyelem) : bool :=
-  match x, y with
-  | BLit l, BLit r => sign_eqb (lit_sign l) NoSign && sign_eqb (lit_sign r) NegNeg && same_pred l r
-  | _, _ => false
-  end.
-Definition body_inv (b: list bodyelem) : Prop :=
-  (forall l, In (BLit l) b -> no_anon l = true) /\
-  (forall x y, In x b -> In y b -> nn_clash x y = false).
+Definition body_inv (b: list bodyelem) : Prop := forall l, In (BLit l) b -> no_anon l = true.
 
 Lemma body_inv_incl b b' : (forall x, In x b' -> In x b) -> body_inv b -> body_inv b'.
-Proof. intros Sub [A B]. split; [intros l Hl; apply A; apply Sub; exact Hl | intros x y Hx Hy; apply B; apply Sub; assumption]. Qed.
+Proof. intros Sub A l Hl. apply A. apply Sub. exact Hl. Qed.
 
 (* one removal *)
 Lemma step_body_ok P I ss b lhs rhs :
@@ -990,7 +1131,7 @@ Lemma step_body_ok P I ss b lhs rhs :
   _superseeded ss lhs rhs = Ok true ->
   body_ok (ground_prog P I) b (remove_first bodyelem_eqb (BLit rhs) b).
 Proof.
-  intros Hss [NA NC] Hl Hr Hl' E. split; [apply remove_first_del|].
+  intros Hss NA Hl Hr Hl' E. split; [apply remove_first_del|].
   intros s fs' Eb'.
   destruct (ground_body_in sym_lt s _ fs' lhs Eb' Hl') as [gl [Egl Hgl]].
   destruct (superseeded_ground P I ss lhs rhs s gl Hss (NA _ Hr) E Egl) as [a [g [-> [Eg D]]]].
@@ -998,52 +1139,238 @@ Proof.
   subst rhs.
   destruct (ground_body_remove_first s _ _ g Eg b fs' Eb') as [fs [Eb Sub]].
   exists fs. split; [exact Eb|]. intros f Hf. destruct (Sub f Hf) as [->|Hf']; [|left; exact Hf'].
-  destruct D as [->|[[_ [S1 [S2 S3]]]|Imp]].
+  destruct D as [->|[[-> _]|Imp]].
   - left. exact Hgl.
-  - exfalso. specialize (NC _ _ Hl Hr). unfold nn_clash in NC. rewrite S1, S2, S3 in NC. discriminate.
+  - right. exists a. split; [exact Hgl|]. right. exists a. auto.
   - right. exists a. auto.
 Qed.
 
 Lemma nth_error_self {A} (l: list A) : forall k x, nth_error l k = Some x -> nth_error l (0 + k) = Some x.
 Proof. intros k x H. exact H. Qed.
 
+(* the global variables of the body are preserved: a removed literal has its arguments among those of the
+   literal that superseeds it (needed for the safety of choice heads, Ground.head_safe) *)
+Definition vars_ok (b b': list bodyelem) : Prop :=
+  forall x, In x (flat_map gvars_bodyelem b) -> In x (flat_map gvars_bodyelem b').
+
+Lemma remove_first_or r : (forall y, bodyelem_eqb y r = true -> y = r) ->
+  forall b x, In x b -> x = r \/ In x (remove_first bodyelem_eqb r b).
+Proof.
+  intros Heq. induction b as [|y b IH]; intros x Hx; [destruct Hx|]. simpl.
+  destruct (bodyelem_eqb y r) eqn:Ey.
+  - destruct Hx as [<-|Hx]; [left; apply Heq; exact Ey | right; exact Hx].
+  - destruct Hx as [<-|Hx]; [right; left; reflexivity|]. destruct (IH x Hx); [left | right; right]; assumption.
+Qed.
+
+Lemma step_vars_ok P I ss b lhs rhs :
+  Forall (mapping_ok P I) ss -> no_anon rhs = true ->
+  In (BLit lhs) (remove_first bodyelem_eqb (BLit rhs) b) -> _superseeded ss lhs rhs = Ok true ->
+  vars_ok b (remove_first bodyelem_eqb (BLit rhs) b).
+Proof.
+  intros Hss NA Hl' E x Hx.
+  destruct (superseeded_meaning P I ss lhs rhs Hss NA E) as [ln [largs [le [sg [rn [rargs [re [El [Er [Incl _]]]]]]]]]].
+  subst lhs rhs. apply in_flat_map in Hx. destruct Hx as [y [Hy Hxy]].
+  destruct (remove_first_or (BLit (Lit sg (ASym (TFun rn rargs re)))) (fun y0 => bodyelem_eqb_sym_eq y0 sg _) b y Hy) as [->|Hy'].
+  - apply in_flat_map. exists (BLit (Lit NoSign (ASym (TFun ln largs le)))). split; [exact Hl'|].
+    simpl in *. apply in_flat_map in Hxy. destruct Hxy as [t [Ht Hxt]]. apply in_flat_map. exists t. auto.
+  - apply in_flat_map. exists y. auto.
+Qed.
+
 (* the whole loop *)
 Lemma remove_loop_body_ok P I ss : Forall (mapping_ok P I) ss ->
   forall fuel b upd b' u, body_inv b ->
-  remove_loop bodyelem_as_lit bodyelem_eqb ss fuel b upd = Ok (b', u) -> body_ok (ground_prog P I) b b'.
+  remove_loop bodyelem_as_lit bodyelem_eqb ss fuel b upd = Ok (b', u) ->
+  body_ok (ground_prog P I) b b' /\ vars_ok b b'.
 Proof.
   intros Hss. induction fuel as [|f IH]; intros b upd b' u Inv E; simpl in E; [discriminate|].
   apply rbind_ok in E. destruct E as [o [Eo E]]. destruct o as [r|].
   - destruct (find_pair_spec bodyelem_as_lit ss b b 0 r (nth_error_self b) Eo) as [i' [j' [x [Ni [Nj [Ne S]]]]]].
     destruct (superseeded_elem_body _ _ _ S) as [lhs [rhs [-> [-> Es]]]].
-    destruct (superseeded_meaning P I ss lhs rhs Hss (proj1 Inv _ (nth_error_In _ _ Nj)) Es)
+    pose proof (Inv _ (nth_error_In _ _ Nj)) as NA.
+    destruct (superseeded_meaning P I ss lhs rhs Hss NA Es)
       as [ln [largs [le [sg [rn [rargs [re [El [Er _]]]]]]]]].
     assert (Keep: In (BLit lhs) (remove_first bodyelem_eqb (BLit rhs) b)).
     { apply (remove_first_keeps bodyelem_eqb (BLit rhs) (bodyelem_eqb_refl _)) with (i := i') (j := j'); try assumption.
       rewrite Er. intros y. apply bodyelem_eqb_sym_eq. }
-    apply (body_ok_trans _ b (remove_first bodyelem_eqb (BLit rhs) b) b').
-    + apply (step_body_ok P I ss b lhs rhs Hss Inv (nth_error_In _ _ Ni) (nth_error_In _ _ Nj) Keep Es).
-    + apply (IH _ _ _ _ (body_inv_incl _ _ (remove_first_In _ _ _) Inv) E).
-  - inversion E; subst. apply body_ok_refl.
+    destruct (IH _ _ _ _ (body_inv_incl _ _ (remove_first_In _ _ _) Inv) E) as [B2 V2]. split.
+    + apply (body_ok_trans _ b (remove_first bodyelem_eqb (BLit rhs) b) b'); [|exact B2].
+      apply (step_body_ok P I ss b lhs rhs Hss Inv (nth_error_In _ _ Ni) (nth_error_In _ _ Nj) Keep Es).
+    + intros v Hv. apply V2. exact (step_vars_ok P I ss b lhs rhs Hss NA Keep Es v Hv).
+  - inversion E; subst. split; [apply body_ok_refl | intros v Hv; exact Hv].
 Qed.
 
 Theorem remove_superseed_body_ok P I ss b b' u : Forall (mapping_ok P I) ss -> body_inv b ->
-  remove_superseed_body ss b = Ok (b', u) -> body_ok (ground_prog P I) b b'.
+  remove_superseed_body ss b = Ok (b', u) -> body_ok (ground_prog P I) b b' /\ vars_ok b b'.
 Proof. intros Hss Inv E. exact (remove_loop_body_ok P I ss Hss _ _ _ _ _ Inv E). Qed.
 
+
+(* ================================================================================================ *)
+(** * 8b. The cleanup meta-theorem for the more general justification *)
+(* Meta.Cleanup.shortened has no case for a deleted  not not q.  Instead of re-proving the meta-theorem, both
+   ground programs are saturated: every body gets  not not a  for each of its positive atoms a.  Saturation keeps
+   the stable models (a and  a, not not a  are HT-equivalent for H <= T), and between the saturated programs
+   every deletion justified by [just] IS an instance of Meta.Cleanup.shortened. *)
+Notation gbsat := (Meta.Cleanup.bsat gatom gF gsat).
+Notation grsat := (Meta.Cleanup.rsat gatom gF gsat).
+Notation gpsat := (Meta.Cleanup.psat gatom gF gsat).
+Notation gstable := (Meta.Cleanup.stable gatom gF gsat).
+Notation gshortened := (Meta.Cleanup.shortened gatom gF GPos).
+Notation mkrule := (Meta.Cleanup.Build_rule gatom gF).
+Notation gsubi := (Meta.Cleanup.subi gatom).
+
+Definition nn_of (f: gF) : list gF := match f with GPos a => [GNN a] | _ => [] end.
+Definition nnsat (fs: list gF) : list gF := fs ++ flat_map nn_of fs.
+
+Lemma in_nnsat f fs : In f (nnsat fs) <-> In f fs \/ exists a, f = GNN a /\ In (GPos a) fs.
+Proof.
+  unfold nnsat. rewrite in_app_iff, in_flat_map. split.
+  - intros [H|[g [Hg Hf]]]; [left; exact H|]. destruct g; simpl in Hf; try contradiction.
+    destruct Hf as [<-|[]]. right. eauto.
+  - intros [H|[a [-> H]]]; [left; exact H|]. right. exists (GPos a). split; [exact H|]. left. reflexivity.
+Qed.
+
+Definition sat_rule (r: grule) : grule := mkrule (ghd r) (nnsat (gbd r)).
+Definition sat_prog (GP: grule -> Prop) : grule -> Prop := fun r' => exists r, GP r /\ r' = sat_rule r.
+
+Lemma bsat_nnsat (H T: interp) fs : gsubi H T -> (gbsat H T (nnsat fs) <-> gbsat H T fs).
+Proof.
+  intros S. unfold Meta.Cleanup.bsat. split.
+  - intros B f Hf. apply B. apply in_nnsat. left. exact Hf.
+  - intros B f Hf. apply in_nnsat in Hf. destruct Hf as [Hf|[a [-> Ha]]]; [exact (B f Hf)|].
+    simpl. apply S. exact (B _ Ha).
+Qed.
+
+Lemma rsat_sat (H T: interp) r : gsubi H T -> (grsat H T (sat_rule r) <-> grsat H T r).
+Proof.
+  intros S. unfold Meta.Cleanup.rsat, sat_rule. simpl.
+  pose proof (bsat_nnsat H T (gbd r) S) as A. pose proof (bsat_nnsat T T (gbd r) (fun a h => h)) as B. tauto.
+Qed.
+
+Lemma psat_sat (H T: interp) GP : gsubi H T -> (gpsat H T (sat_prog GP) <-> gpsat H T GP).
+Proof.
+  intros S. unfold Meta.Cleanup.psat, sat_prog. split.
+  - intros A r Pr. apply (rsat_sat H T r S). apply A. exists r. auto.
+  - intros A r' [r [Pr ->]]. apply (rsat_sat H T r S). apply A. exact Pr.
+Qed.
+
+Lemma stable_sat GP (T: interp) : gstable GP T <-> gstable (sat_prog GP) T.
+Proof.
+  unfold Meta.Cleanup.stable. pose proof (psat_sat T T GP (fun a h => h)) as X.
+  split; intros [A B]; (split; [apply X; exact A|]); intros H S PS; apply B; auto; apply (psat_sat H T GP S); exact PS.
+Qed.
+
+(* implications survive saturation, and an implied positive atom yields its double negation *)
+Lemma impn_sat GP n : forall p f f', gimpn GP n p f -> (f' = f \/ exists q, f = GPos q /\ f' = GNN q) ->
+  gimpn (sat_prog GP) n p f'.
+Proof.
+  assert (L0: forall (r: grule) f f', In f (gbd r) -> (f' = f \/ exists q, f = GPos q /\ f' = GNN q) ->
+              In f' (gbd (sat_rule r))).
+  { intros r f f' Hin L. simpl. apply in_nnsat. destruct L as [->|[q [-> ->]]]; [left; exact Hin | right; eauto]. }
+  induction n as [|n IH]; intros p f f' H L.
+  - apply impn_0. intros r' [r [Pr ->]] Ha. simpl in Ha.
+    exact (L0 r f f' (proj1 (impn_0 _ _ _ _ _ _) H r Pr Ha) L).
+  - apply impn_succ. intros r' [r [Pr ->]] Ha. simpl in Ha.
+    destruct (proj1 (impn_succ _ _ _ _ _ _ _) H r Pr Ha) as [Hin|[q0 [Hq0 Hi]]].
+    + left. exact (L0 r f f' Hin L).
+    + right. exists q0. split; [simpl; apply in_nnsat; left; exact Hq0 | exact (IH _ _ _ Hi L)].
+Qed.
+
+Lemma just_shortened GP fs fs' h : (forall f, In f fs' -> In f fs) -> just GP fs fs' ->
+  gshortened (sat_prog GP) (sat_rule (mkrule h fs)) (sat_rule (mkrule h fs')).
+Proof.
+  intros Sub J. unfold Meta.Cleanup.shortened, sat_rule. simpl. split; [reflexivity|]. split.
+  - intros f Hf. apply in_nnsat in Hf. apply in_nnsat.
+    destruct Hf as [Hf|[a [-> Ha]]]; [left; auto | right; exists a; auto].
+  - intros l Hl. apply in_nnsat in Hl.
+    assert (K: forall f, In f fs -> forall f', (f' = f \/ exists q, f = GPos q /\ f' = GNN q) ->
+               In f' (nnsat fs') \/ exists p, In (GPos p) (nnsat fs') /\ gimp (sat_prog GP) p f').
+    { intros f Hf f' L. destruct (J f Hf) as [H1|[p [Hp D]]].
+      - left. apply in_nnsat. destruct L as [->|[q [-> ->]]]; [left; exact H1 | right; eauto].
+      - destruct D as [[n Ip]|[q [Ef D]]].
+        + right. exists p. split; [apply in_nnsat; left; exact Hp|]. exists n. exact (impn_sat GP n p f f' Ip L).
+        + subst f. destruct L as [->|[q' [Eq _]]]; [|discriminate Eq].
+          destruct D as [->|[n Iq]].
+          * left. apply in_nnsat. right. eauto.
+          * right. exists p. split; [apply in_nnsat; left; exact Hp|]. exists n.
+            apply (impn_sat GP n p (GPos q) (GNN q) Iq). right. eauto. }
+    destruct Hl as [Hl|[a [-> Ha]]].
+    + apply (K l Hl l). left. reflexivity.
+    + apply (K (GPos a) Ha (GNN a)). right. eauto.
+Qed.
+
+(* Ground.del_ok with [just] in place of its last clause (Ground.del_ok implies del_ok_nn) *)
+Definition del_ok_nn (P: program) (I: list gatom) (st st': stmt) : Prop :=
+  match st, st' with
+  | SRule _ h b, SRule _ h' b' => h = h' /\ body_ok (ground_prog P I) b b'
+  | SRule _ _ _, _ => False
+  | _, SRule _ _ _ => False
+  | _, _ => True
+  end.
+
+Lemma shortened_refl GP r : gshortened GP r r.
+Proof. split; [reflexivity|]. split; [auto|]. intros l Hl. left. exact Hl. Qed.
+
+Lemma del_fwd_nn P P' I : Forall2 (del_ok_nn P I) P P' ->
+  forall r, sat_prog (ground_prog P I) r ->
+  exists r', sat_prog (ground_prog P' I) r' /\ gshortened (sat_prog (ground_prog P I)) r r'.
+Proof.
+  intros D r [r0 [[[st [Hin GR]]|[a [Hin ->]]] ->]].
+  - destruct (Forall2_in_l _ _ _ _ D Hin) as [st' [Hin' OK]].
+    destruct st as [line h b| | | |]; try (simpl in GR; contradiction).
+    destruct st' as [line' h' b'| | | |]; try (simpl in OK; contradiction).
+    destruct OK as [<- [Del OK]]. destruct GR as [s [fs [Eb [Hh Ebd]]]].
+    destruct (ground_body_del sym_lt s b b' Del fs Eb) as [fs' [Eb' Sub]].
+    exists (sat_rule (mkrule (ghd r0) fs')). split.
+    + exists (mkrule (ghd r0) fs'). split; [|reflexivity]. left. exists (SRule line' h b'). split; [exact Hin'|].
+      exists s, fs'. simpl. auto.
+    + destruct (OK s fs' Eb') as [fs0 [Eb0 J]]. rewrite Eb in Eb0. inversion Eb0; subst fs0.
+      destruct r0 as [rh rb]. simpl in Ebd. subst rb. simpl. apply just_shortened; assumption.
+  - exists (sat_rule (fact_rule a)). split; [|apply shortened_refl].
+    exists (fact_rule a). split; [right; exists a; auto | reflexivity].
+Qed.
+
+Lemma del_bwd_nn P P' I : Forall2 (del_ok_nn P I) P P' ->
+  forall r', sat_prog (ground_prog P' I) r' ->
+  exists r, sat_prog (ground_prog P I) r /\ gshortened (sat_prog (ground_prog P I)) r r'.
+Proof.
+  intros D r' [r0 [[[st' [Hin' GR]]|[a [Hin ->]]] ->]].
+  - destruct (Forall2_in_r _ _ _ _ D Hin') as [st [Hin OK]].
+    destruct st' as [line' h' b'| | | |]; try (simpl in GR; contradiction).
+    destruct st as [line h b| | | |]; try (simpl in OK; contradiction).
+    destruct OK as [<- [Del OK]]. destruct GR as [s [fs' [Eb' [Hh Ebd]]]].
+    destruct (OK s fs' Eb') as [fs [Eb J]].
+    destruct (ground_body_del sym_lt s b b' Del fs Eb) as [fs0 [Eb0 Sub]]. rewrite Eb' in Eb0. inversion Eb0; subst fs0.
+    exists (sat_rule (mkrule (ghd r0) fs)). split.
+    + exists (mkrule (ghd r0) fs). split; [|reflexivity]. left. exists (SRule line h b). split; [exact Hin|].
+      exists s, fs. simpl. auto.
+    + destruct r0 as [rh rb]. simpl in Ebd. subst rb. simpl. apply just_shortened; assumption.
+  - exists (sat_rule (fact_rule a)). split; [|apply shortened_refl].
+    exists (fact_rule a). split; [right; exists a; auto | reflexivity].
+Qed.
+
+(* Ground.cleanup_nonground_del for the more general justification *)
+Theorem cleanup_nonground_del_nn P P' I : simple_prog P = true -> simple_prog P' = true ->
+  Forall2 (del_ok_nn P I) P P' ->
+  forall T, stable sym_lt P I T <-> stable sym_lt P' I T.
+Proof.
+  intros S S' D T.
+  rewrite (ground_stable_iff sym_lt P S I T), (ground_stable_iff sym_lt P' S' I T).
+  rewrite (stable_sat (ground_prog P I) T), (stable_sat (ground_prog P' I) T). split.
+  - exact (Meta.Cleanup.cleanup_fwd gatom gF gsat GPos gsat_pos gsat_persist _ _ (del_fwd_nn P P' I D) (del_bwd_nn P P' I D) T).
+  - exact (Meta.Cleanup.cleanup_bwd gatom gF gsat GPos gsat_pos gsat_mono _ _ (del_fwd_nn P P' I D) (del_bwd_nn P P' I D) T).
+Qed.
 
 (* ================================================================================================ *)
 (** * 9. _apply_superseeding, remove_boolean and execute_core on the fragment *)
 
 (* The fragment of step 5 (all conditions are boolean):
-   - heads: plain atom  n(args)  or a constant (constraints);  no choice / disjunction / head aggregate
-     (known defect: union of the element mappings);
+   - heads ([frag_head]): plain atom  n(args),  a constant (constraints), or a bound-free choice over
+     condition-free positive atoms in which elements of the same predicate have the same arguments, and which is
+     safe (Ground.head_safe: its variables occur in the body; part of Ground.simple_prog).  No disjunction, no
+     head aggregate, no conditions in choice elements (known defect: union of the element mappings);
    - bodies of rules: plain literals only (symbolic atoms of any sign, comparisons); no conditional literals,
      no aggregates, no #true / #false;
    - no body literal has the anonymous variable "_" as an argument ("_" is an ordinary variable in Sem/Sat.v);
-   - [nn_free]: no body contains  p(..)  and  not not p(..)  of the same predicate p/n.  That removal is sound
-     (p(t) entails not not p(t) in HT) but is no instance of Meta.Cleanup.shortened, whose deleted literals must be
-     implied through the RULES of the kept positive atom;
    - bodies of minimize statements: plain literals only (they carry no meaning for stable models; the condition
      only makes remove_boolean keep the statement);
    - other statements: arbitrary. *)
@@ -1051,11 +1378,10 @@ Definition frag_lit (l: lit) : bool :=
   match l with Lit _ (ASym _) => true | Lit _ (ACmp _ _) => true | _ => false end.
 Definition elem_ok (e: bodyelem) : bool := match e with BLit l => frag_lit l | BCond _ _ => false end.
 Definition anon_ok (e: bodyelem) : bool := match e with BLit l => no_anon l | BCond _ _ => true end.
-Definition nn_free (b: list bodyelem) : bool := forallb (fun x => forallb (fun y => negb (nn_clash x y)) b) b.
-Definition frag_body (b: list bodyelem) : bool := forallb elem_ok b && forallb anon_ok b && nn_free b.
+Definition frag_body (b: list bodyelem) : bool := forallb elem_ok b && forallb anon_ok b.
 Definition frag_stmt (st: stmt) : bool :=
   match st with
-  | SRule _ h b => plain_head h && frag_body b
+  | SRule _ h b => frag_head h && frag_body b && head_safe h b
   | SMin _ _ _ _ b => forallb elem_ok b
   | _ => true
   end.
@@ -1063,16 +1389,14 @@ Definition frag_prog (P: program) : bool := forallb frag_stmt P.
 
 Lemma frag_body_inv b : frag_body b = true -> forallb elem_ok b = true /\ body_inv b.
 Proof.
-  unfold frag_body, nn_free. rewrite !andb_true_iff, !forallb_forall. intros [[A B] C]. split; [exact A|]. split.
-  - intros l Hl. exact (B _ Hl).
-  - intros x y Hx Hy. specialize (C x Hx). rewrite forallb_forall in C. specialize (C y Hy).
-    destruct (nn_clash x y); [discriminate | reflexivity].
+  unfold frag_body. rewrite !andb_true_iff, !forallb_forall. intros [A B]. split; [exact A|].
+  intros l Hl. exact (B _ Hl).
 Qed.
 
-Lemma frag_prog_plain P : frag_prog P = true -> plain_prog P = true.
+Lemma frag_prog_heads P : frag_prog P = true -> heads_ok P = true.
 Proof.
-  unfold frag_prog, plain_prog. rewrite !forallb_forall. intros H st Hin. specialize (H st Hin).
-  destruct st; try reflexivity. simpl in *. apply andb_true_iff in H. tauto.
+  unfold frag_prog, heads_ok. rewrite !forallb_forall. intros H st Hin. specialize (H st Hin).
+  destruct st; try reflexivity. simpl in *. rewrite !andb_true_iff in H. tauto.
 Qed.
 
 Lemma elem_ok_simple b : forallb elem_ok b = true -> simple_body b = true.
@@ -1081,17 +1405,27 @@ Proof.
   destruct e as [[sg a]|]; [|discriminate]. destruct a; try discriminate; reflexivity.
 Qed.
 
-Lemma plain_head_simple h b : plain_head h = true -> simple_head h = true /\ head_safe h b = true.
+Lemma frag_head_simple h : frag_head h = true -> simple_head h = true.
 Proof.
-  intros Pl. destruct (plain_head_cases h Pl) as [[n [hargs [e ->]]]|[sg [c ->]]]; split; try reflexivity.
-  destruct sg; reflexivity.
+  intros Fh. destruct (frag_head_cases h Fh) as [[n [hargs [e ->]]]|[[sg [c ->]]|[es [-> [Si _]]]]]; try reflexivity.
+  - destruct sg; reflexivity.
+  - exact Si.
+Qed.
+
+(* the safety of a choice head survives the removals: the global variables of the body are preserved *)
+Lemma head_safe_mono h b b' : vars_ok b b' -> head_safe h b = true -> head_safe h b' = true.
+Proof.
+  intros V. destruct h as [l|es|lg es rg|lg f es rg|tx]; try (intros _; reflexivity).
+  unfold head_safe. rewrite !forallb_forall. intros H x Hx. specialize (H x Hx).
+  apply existsb_exists in H. destruct H as [y [Hy Exy]]. apply existsb_exists. exists y. split; [|exact Exy].
+  unfold gvars_rule in *. apply in_app_or in Hy. apply in_or_app. destruct Hy as [Hy|Hy]; [left; exact Hy | right; apply V; exact Hy].
 Qed.
 
 Lemma frag_prog_simple P : frag_prog P = true -> simple_prog P = true.
 Proof.
   unfold frag_prog, simple_prog. rewrite !forallb_forall. intros H st Hin. specialize (H st Hin).
-  destruct st as [ln h b| | | |]; try reflexivity. simpl in *. apply andb_true_iff in H. destruct H as [Ph Fb].
-  destruct (plain_head_simple h b Ph) as [-> ->]. destruct (frag_body_inv b Fb) as [Eo _].
+  destruct st as [ln h b| | | |]; try reflexivity. simpl in *. rewrite !andb_true_iff in H. destruct H as [[Ph Fb] Hs].
+  rewrite (frag_head_simple h Ph), Hs. destruct (frag_body_inv b Fb) as [Eo _].
   rewrite (elem_ok_simple b Eo). reflexivity.
 Qed.
 
@@ -1157,15 +1491,15 @@ Qed.
 (* one statement of the fragment *)
 Lemma apply_superseeding_del_ok P I sups stm s :
   Forall (mapping_ok P I) sups -> frag_stmt stm = true -> _apply_superseeding sups stm = Ok s ->
-  remove_boolean s = Some s /\ del_ok sym_lt P I stm s /\ simple_stmt s = true.
+  remove_boolean s = Some s /\ del_ok_nn P I stm s /\ simple_stmt s = true.
 Proof.
   intros Hss Fr E. destruct stm as [ln h b|ln w p ts b|n a pos|t b|k x].
-  - simpl in Fr. apply andb_true_iff in Fr. destruct Fr as [Ph Fb]. destruct (frag_body_inv b Fb) as [Eo Inv].
+  - simpl in Fr. rewrite !andb_true_iff in Fr. destruct Fr as [[Ph Fb] Hs]. destruct (frag_body_inv b Fb) as [Eo Inv].
     destruct (apply_superseeding_plain sups (SRule ln h b) b s eq_refl Eo E) as [b' [u [Er [-> Eo']]]]. cbn [stmt_update_body].
     split; [apply remove_boolean_rule; exact Eo'|].
-    pose proof (remove_superseed_body_ok P I sups b b' u Hss Inv Er) as [D J]. split.
+    pose proof (remove_superseed_body_ok P I sups b b' u Hss Inv Er) as [[D J] VO]. split.
     + simpl. split; [reflexivity|]. split; [exact D | exact J].
-    + simpl. destruct (plain_head_simple h b' Ph) as [-> ->]. rewrite (elem_ok_simple b' Eo'). reflexivity.
+    + simpl. rewrite (frag_head_simple h Ph), (head_safe_mono h b b' VO Hs), (elem_ok_simple b' Eo'). reflexivity.
   - simpl in Fr. destruct (apply_superseeding_plain sups (SMin ln w p ts b) b s eq_refl Fr E) as [b' [u [Er [-> Eo']]]]. cbn [stmt_update_body].
     split; [apply remove_boolean_min; exact Eo'|]. split; [exact Logic.I | reflexivity].
   - inversion E; subst. split; [reflexivity|]. split; [exact Logic.I | reflexivity].
@@ -1188,21 +1522,20 @@ Proof.
   apply rbind_ok in E. destruct E as [[out sups'] [E E2]]. inversion E2; subst prg'. clear E2. cbn [fst].
   apply rbind_ok in E. destruct E as [sups [Ef E]].
   apply rbind_ok in E. destruct E as [r [El E]]. inversion E; subst out sups'. clear E.
-  pose proof (find_superseeded_meaning inputs prg I sups (frag_prog_plain _ Fr) FO Ef) as Hss.
+  pose proof (find_superseeded_meaning inputs prg I sups (frag_prog_heads _ Fr) FO Ef) as Hss.
   rewrite execute_loop_eq in El.
-  destruct (exec_fold_Forall2 (fun stm s => del_ok sym_lt prg I stm s /\ simple_stmt s = true) sups prg [] r) as [out' [Eo F]].
+  destruct (exec_fold_Forall2 (fun stm s => del_ok_nn prg I stm s /\ simple_stmt s = true) sups prg [] r) as [out' [Eo F]].
   { intros stm s Hin Es. apply (apply_superseeding_del_ok prg I sups stm s Hss); [|exact Es].
     unfold frag_prog in Fr. rewrite forallb_forall in Fr. exact (Fr stm Hin). }
   { exact El. }
   simpl in Eo. subst out'.
-  apply cleanup_nonground_del.
+  apply cleanup_nonground_del_nn.
   - apply frag_prog_simple. exact Fr.
   - unfold simple_prog. apply forallb_forall. intros s Hs.
     destruct (Forall2_in_r _ _ _ _ F Hs) as [stm [_ [_ X]]]. exact X.
   - apply (Forall2_impl' _ _ _ _ (fun a b (H: _ /\ _) => proj1 H) F).
 Qed.
 
-(* @@TAIL@@ *)
 End CleanupSem.
 
 (* ================================================================================================ *)
@@ -1223,13 +1556,35 @@ Proof. vm_compute. reflexivity. Qed.
 Example run_sound sym_lt I T : facts_over (in_inputs [("r", 1)]) I ->
   stable sym_lt [r1; r2; r3] I T <-> stable sym_lt [r1; r2; r3'] I T.
 Proof. intros FO. apply (execute_core_sound sym_lt [("r", 1)] [r1; r2; r3] [r1; r2; r3'] eq_refl run I FO). Qed.
+
+(* a safe choice head:   {p(X)} :- q(X).   a(X) :- p(X), q(X).   inputs: q/1 *)
+Definition c1 : stmt := SRule 1 (HAgg None [(at1 "p", [])] None) [BLit (at1 "q")].
+Definition c2 : stmt := SRule 2 (HLit (at1 "a")) [BLit (at1 "p"); BLit (at1 "q")].
+Definition c2' : stmt := SRule 2 (HLit (at1 "a")) [BLit (at1 "p")].
+Example run_choice : execute_core [("q", 1)] [c1; c2] = Ok [c1; c2'].
+Proof. vm_compute. reflexivity. Qed.
+Example run_choice_sound sym_lt I T : facts_over (in_inputs [("q", 1)]) I ->
+  stable sym_lt [c1; c2] I T <-> stable sym_lt [c1; c2'] I T.
+Proof. intros FO. apply (execute_core_sound sym_lt [("q", 1)] [c1; c2] [c1; c2'] eq_refl run_choice I FO). Qed.
+
+(* outside the fragment (known defect, union of element mappings):  {p(X); p(Y)} :- q(X), r(Y).  a(X) :- p(X), q(X).
+   The model drops q(X) although p(2) can be chosen through the second element with r(2) and without q(2). *)
+Definition d1 : stmt :=
+  SRule 1 (HAgg None [(Lit NoSign (ASym (TFun "p" [TVar "X"] false)), []); (Lit NoSign (ASym (TFun "p" [TVar "Y"] false)), [])] None)
+          [BLit (at1 "q"); BLit (Lit NoSign (ASym (TFun "r" [TVar "Y"] false)))].
+Example defect_union_outside_fragment :
+  frag_prog [d1; c2] = false /\ execute_core [("q", 1); ("r", 1)] [d1; c2] = Ok [d1; c2'].
+Proof. split; vm_compute; reflexivity. Qed.
 End CleanupExample.
 
 Print Assumptions create_mappings_meaning.
+Print Assumptions create_mappings_meaning_frag.
 Print Assumptions find_superseeded_direct_meaning.
 Print Assumptions transitive_closure_meaning.
 Print Assumptions find_superseeded_meaning.
 Print Assumptions superseeded_meaning.
 Print Assumptions remove_superseed_body_ok.
+Print Assumptions cleanup_nonground_del_nn.
 Print Assumptions execute_core_sound.
 Print Assumptions CleanupExample.run_sound.
+Print Assumptions CleanupExample.run_choice_sound.
